@@ -55,9 +55,11 @@ def parseResponse (cmd : Nat) (resp : Bytes) : R Slice :=
   match unhex hexData with
   | none => .err .other
   | some bin =>
-    let values := bin.dropLast
-    let ck := bin.getLastD 0
-    if checksum response values ≠ ck then .err .other else .ok ⟨values, [ck]⟩
+    -- values = binData[:len(binData)-1]; responseChecksum = binData[len(binData)-1]
+    match bin.getLast? with
+    | none => .panic
+    | some ck =>
+      if checksum response bin.dropLast ≠ ck then .err .other else .ok ⟨bin.dropLast, [ck]⟩
 
 /-- `responseError` -/
 def flagError (flag : Nat) : Option Err :=
